@@ -14,6 +14,7 @@ import (
 	"bytes"
 	"context"
 	"database/sql"
+	"fmt"
 	"strings"
 
 	"ariga.io/atlas/sql/sqlite"
@@ -35,6 +36,8 @@ type loopResult struct {
 	rawErr                                             error
 	nTables                                            int
 	historyMsg                                         string
+	rawTables                                          []rawTable // SQLite's own catalogue of db0
+	created                                            []string   // tables the SQL export creates
 }
 
 func loopOnce(script string) *loopResult {
@@ -57,6 +60,7 @@ func loopOnDB(db0 *sql.DB, r *loopResult) {
 	r.nTables = len(s0.Tables)
 	if raw, err := rawCatalogue(db0); err == nil {
 		r.raw0 = rawCanon(raw, false)
+		r.rawTables = raw
 	} else {
 		r.rawErr = err
 	}
@@ -105,6 +109,7 @@ func loopOnDB(db0 *sql.DB, r *loopResult) {
 	s0c, drv2, _ := inspectDB(db0)
 	r.sql, _, r.sqlPlanErr = sqlExport(drv2, s0c, "")
 	if r.sqlPlanErr == nil {
+		r.created = createdTables(r.sql)
 		db2 := freshDB()
 		if r.sqlExecErr = execScript(db2, r.sql); r.sqlExecErr == nil {
 			s2, _, err := inspectDB(db2)
@@ -224,6 +229,9 @@ func (r *loopResult) verdict() []viol {
 		if d := firstDiff(r.raw0, r.rawSQL); d != "" {
 			add("sql-raw-catalogue", d)
 		}
+	}
+	if r.sqlPlanErr == nil && r.rawErr == nil && strings.Join(r.created, "\x00") != strings.Join(rawNames(r.rawTables), "\x00") {
+		add("sql-tables", fmt.Sprintf("the SQL export creates %q, the database holds %q", r.created, rawNames(r.rawTables)))
 	}
 	if r.historyMsg != "" {
 		add("history-unstable", r.historyMsg)
